@@ -9,6 +9,7 @@ MODULES = ["Props.C02"]
 THEOREMS = [
     "Props.C02.c02_parse",
     "Props.C02.c02_last_is_greatest",
+    "Props.C02.c02_offered",
 ]
 
 
